@@ -16,8 +16,13 @@ Regs0(W, H) ==
    page |-> 0, cur |-> -1, par |-> <<>>, burst |-> <<>>, normal |-> TRUE, idle |-> FALSE]
 
 \* bus: word width (8 / 16);  rm: the RM67162 vendor command-page rule applies
+\* At power-up / before the driver has touched it the controller holds whatever an earlier boot stage or session left
+\* behind: every register the driver is responsible for starts at a value that is NOT the reset default, so that an
+\* initialisation that relies on a default it did not establish is exposed.
+Garbage(W, H) == [Regs0(W, H) EXCEPT !.sleep = FALSE, !.on = TRUE, !.inv = TRUE, !.madctl = 236, !.colmod = 3, !.te = 2,
+                                      !.normal = FALSE, !.idle = TRUE]
 CtlNew(W, H, bus, rm) ==
-  Regs0(W, H) @@
+  Garbage(W, H) @@
   [W |-> W, H |-> H, bus |-> bus, rm |-> rm, fb |-> <<>>, flags |-> {},
    n2c |-> 0, ndata |-> 0, nsw |-> 0, nhw |-> 0, ncmd |-> 0,
    tslpU |-> -1, tslpN |-> 0, tdone |-> <<0, 0>>, nslp |-> 0]
@@ -98,7 +103,9 @@ CtlCmd(c0, b, us, ns) ==
       c  == [c1 EXCEPT !.cur = b, !.par = <<>>, !.ncmd = @ + 1]
   IN
   IF c.rm /\ c.page # 0 /\ b # 254 THEN [c EXCEPT !.cur = -2] ELSE
-  CASE b = 1  -> [HwReset(c) EXCEPT !.nsw = c.nsw + 1, !.cur = 1, !.tslpU = -1]
+  \* software reset: like the hardware reset, except that the address mode survives it (ILI9341 / ST7789 data sheets:
+  \* MADCTL "S/W reset: no change")
+  CASE b = 1  -> [HwReset(c) EXCEPT !.nsw = c.nsw + 1, !.cur = 1, !.tslpU = -1, !.madctl = c.madctl]
     [] b = 16 -> [(IF Spaced(c, us, ns) THEN c ELSE Flag(c, "sleep_spacing"))
                     EXCEPT !.sleep = TRUE, !.tslpU = us, !.tslpN = ns, !.nslp = @ + 1]
     [] b = 17 -> [(IF Spaced(c, us, ns) THEN c ELSE Flag(c, "sleep_spacing"))
